@@ -45,12 +45,12 @@ theorem PFrame.of_PStep {w w' : World} (h : PStep w w') : PFrame w w' := by
   exact ⟨a, b, c, fun s => by unfold getS; rw [d]⟩
 
 /-- rebuild the invariant after an action that touched only publisher `p` and connections of `p` -/
-theorem InvP.rebuild {cfg : Cfg} {w w' : World} {xp : Option Nat} {p0 : Nat} {xs xs' : List Nat} {st st' : Bool}
+theorem InvP.rebuild00 {cfg : Cfg} {w w' : World} {xp : Option Nat} {p0 : Nat} {xs xs' : List Nat} {st st' : Bool}
     (h : InvP cfg w xp p0 xs st) (p : Nat)
     (hfr : PFrame w w')
     (hPo : ∀ q, q ≠ p → getP w' q = getP w q)
     (hCo : ∀ q s, q ≠ p → getC w' q s = getC w q s)
-    (hsim : PubsSim0 w w')
+    (hsim : PubsSim00 w w')
     (hu : ConnsUniq w')
     (hx : p ≠ p0 → xs = [] ∧ xs' = [])
     (hR : ∀ s c, getC w p s = some c → c.rAtt = true → ∃ c', getC w' p s = some c' ∧ c'.rAtt = true)
@@ -87,6 +87,21 @@ theorem InvP.rebuild {cfg : Cfg} {w w' : World} {xp : Option Nat} {p0 : Nat} {xs
     by_cases hq : q = p
     · subst hq; exact hR s c hc hr
     · exact ⟨c, by rw [hCo q s hq]; exact hc, hr⟩
+
+theorem InvP.rebuild {cfg : Cfg} {w w' : World} {xp : Option Nat} {p0 : Nat} {xs xs' : List Nat} {st st' : Bool}
+    (h : InvP cfg w xp p0 xs st) (p : Nat)
+    (hfr : PFrame w w')
+    (hPo : ∀ q, q ≠ p → getP w' q = getP w q)
+    (hCo : ∀ q s, q ≠ p → getC w' q s = getC w q s)
+    (hsim : PubsSim0 w w')
+    (hu : ConnsUniq w')
+    (hx : p ≠ p0 → xs = [] ∧ xs' = [])
+    (hR : ∀ s c, getC w p s = some c → c.rAtt = true → ∃ c', getC w' p s = some c' ∧ c'.rAtt = true)
+    (hC : ∀ s c', getC w' p s = some c' → ConnInv cfg w' p s c')
+    (hP : ∀ P', getP w' p = some P' → SlotsOK cfg w' p P' ∧
+      (P'.alive = true → MemOK cfg w' p P' (if p = p0 then xs' else []) st')) :
+    InvP cfg w' xp p0 xs' st' :=
+  h.rebuild00 p hfr hPo hCo hsim.to00 hu hx hR hC hP
 
 /-! ### uniqueness of connection keys -/
 
